@@ -147,9 +147,67 @@ const (
 // Modules that evaluate few tuples per call get a one-page memory (instantiation zeroes it).
 func layout(small bool) (pages uint32, outBase uint32, chunk int) {
 	if small {
-		return 1, 0xc000, 1024
+		return 1, 0xc000, 1016 // the last 128 bytes of the page stay free for the scratch word
 	}
 	return 9, 0x60000, maxChunk // also room for the 16-bit sweep: 128 KiB in, 128 KiB out
+}
+
+// scratchAddr is the word the canonical-slot probe stores the result to (outside both areas).
+func scratchAddr(small bool) int32 {
+	pages, _, _ := layout(small)
+	return int32(pages*65536 - 16)
+}
+
+// hasCanon: instructions with an i32 or f32 result get the canonical-slot probe: the
+// one-instruction function returns, besides the result r, a flag word computed by consuming r
+// inside the guest. x = r (f32: i32.reinterpret_f32 r), y = the value reloaded after storing r
+// to memory (a store writes exactly the low 32 bits). A 32-bit value is only "the specified
+// value" if every consumer sees the same as for y:
+//
+//	bit0 i32.ne(x,y)  bit1 i32.lt_u(x,y)  bit2 i32.gt_u(x,y)  bit3 !i32.le_u(x,y)  bit4 !i32.ge_u(x,y)
+//	bit5 !i32.eq(x,y) bit6 i64.extend_i32_u differs  bit7 i64.extend_i32_s differs
+//	bit8 i32.xor(x,y)!=0  bit9 i32.sub(x,y)!=0  bit10 !i32.eqz(x) != !i32.eqz(y) ... all must be 0.
+func hasCanon(op *refnum.Op) bool { return op.Result.T == refnum.I32 || op.Result.T == refnum.F32 }
+
+func canonProbe(b *wasmenc.B, t refnum.Type, tmp uint32, scratch int32) {
+	x, y := tmp+1, tmp+2
+	b.LocalSet(tmp)
+	b.LocalGet(tmp)
+	if t == refnum.F32 {
+		b.Raw(wasmenc.OpI32ReinterpretF32)
+	}
+	b.LocalSet(x)
+	b.I32Const(scratch).LocalGet(tmp)
+	if t == refnum.F32 {
+		b.Mem(wasmenc.OpF32Store, 2, 0)
+	} else {
+		b.Mem(wasmenc.OpI32Store, 2, 0)
+	}
+	b.I32Const(scratch).Mem(wasmenc.OpI32Load, 2, 0).LocalSet(y)
+	b.LocalGet(tmp) // first result: r itself
+	xy := func() *wasmenc.B { return b.LocalGet(x).LocalGet(y) }
+	or := func(bit int32) { b.I32Const(bit).Raw(wasmenc.OpI32Shl, wasmenc.OpI32Or) }
+	xy().Raw(wasmenc.OpI32Ne)
+	xy().Raw(wasmenc.OpI32LtU)
+	or(1)
+	xy().Raw(wasmenc.OpI32GtU)
+	or(2)
+	xy().Raw(wasmenc.OpI32LeU, wasmenc.OpI32Eqz)
+	or(3)
+	xy().Raw(wasmenc.OpI32GeU, wasmenc.OpI32Eqz)
+	or(4)
+	xy().Raw(wasmenc.OpI32Eq, wasmenc.OpI32Eqz)
+	or(5)
+	b.LocalGet(x).Raw(wasmenc.OpI64ExtendI32U).LocalGet(y).Raw(wasmenc.OpI64ExtendI32U, wasmenc.OpI64Ne)
+	or(6)
+	b.LocalGet(x).Raw(wasmenc.OpI64ExtendI32S).LocalGet(y).Raw(wasmenc.OpI64ExtendI32S, wasmenc.OpI64Ne)
+	or(7)
+	xy().Raw(wasmenc.OpI32Xor).I32Const(0).Raw(wasmenc.OpI32Ne)
+	or(8)
+	xy().Raw(wasmenc.OpI32Sub).I32Const(0).Raw(wasmenc.OpI32Ne)
+	or(9)
+	b.LocalGet(x).Raw(wasmenc.OpI32Eqz).LocalGet(y).Raw(wasmenc.OpI32Eqz, wasmenc.OpI32Ne)
+	or(10)
 }
 
 func flatTypes(ps []refnum.Param, skip int) []byte {
@@ -217,6 +275,9 @@ func buildModule(op *refnum.Op, variant string, insts []instance, small bool) []
 	src := sources(variant, len(op.Params))
 	fp := funcParams(op, src)
 	fr := flatTypes([]refnum.Param{op.Result}, -1)
+	if hasCanon(op) {
+		fr = append(fr, wasmenc.I32) // second result: the canonical-slot probe flags
+	}
 	ft := m.AddType(fp, fr)
 	m.Mems = [][]byte{wasmenc.Limits(memPages, int64(memPages), false)}
 	m.Exports = append(m.Exports, wasmenc.Export{Name: "mem", Kind: wasmenc.KMem, Idx: 0})
@@ -261,6 +322,9 @@ func buildModule(op *refnum.Op, variant string, insts []instance, small bool) []
 			tmp := uint32(len(fp))
 			locals = []byte{wasmenc.V128}
 			b.LocalSet(tmp).LocalGet(tmp).FD(0x1d, 0).LocalGet(tmp).FD(0x1d, 1)
+		} else if hasCanon(op) {
+			locals = []byte{byte(op.Result.T), wasmenc.I32, wasmenc.I32}
+			canonProbe(b, op.Result.T, uint32(len(fp)), scratchAddr(small))
 		}
 		idx := m.AddFunc(fp, fr, locals, b.Bytes())
 		m.ExportFunc("f"+strconv.Itoa(k), idx)
@@ -392,7 +456,11 @@ func (o observed) String(op *refnum.Op) string {
 	if o.Trap != "" {
 		return "trap(" + o.Trap + ")"
 	}
-	return op.FormatV(op.Result, o.V)
+	s := op.FormatV(op.Result, o.V)
+	if hasCanon(op) && uint32(o.V[1]) != 0 {
+		s += fmt.Sprintf(" held in a non-canonical 32-bit slot (in-guest consumers disagree with the stored/reloaded value: probe flags %#x)", uint32(o.V[1]))
+	}
+	return s
 }
 
 // direct calls f<k> once with the tuple's operands (mem variant: through memory).
@@ -521,6 +589,9 @@ func mkCase(op *refnum.Op, variant, engine string, imm []byte, args []refnum.V, 
 func judge(op *refnum.Op, want refnum.Res, got observed) bool {
 	if want.Trap != "" || got.Trap != "" {
 		return want.Trap == got.Trap
+	}
+	if hasCanon(op) && uint32(got.V[1]) != 0 {
+		return false // the low 32 bits may be right, but consumers inside the guest see another value
 	}
 	return op.Match(want, got.V)
 }
